@@ -495,9 +495,10 @@ def check_main(driver_cls, tier, budget_s, base_seed, workers=None, max_runs=Non
         seed0, detail0 = sorted(hits)[0]
         plan = driver.gen(seed0, tier)
         mplan, mres, nruns = minimise(driver, plan, sig)
+        unstable = "san/" in sig or "/crash" in sig or any(sig.startswith(p) for p in getattr(driver, "unstable_prefixes", ()))
         if mplan is None:
             # did not reproduce in the parent process
-            if "san/" in sig or "/crash" in sig:
+            if unstable:
                 # sanitizer reports depend on the sanitizer's own bounded history and on the contents of freed
                 # memory: an unreproducible one is recorded, never reported as a violation
                 lines.append("UNCONFIRMED: property=%s signature=%s seed=%d (sanitizer report did not recur on re-run)" % (prop, sig, seed0))
@@ -515,9 +516,9 @@ def check_main(driver_cls, tier, budget_s, base_seed, workers=None, max_runs=Non
             ok = any(v.sig == sig for v in vs2)
             hashes.append((res.history_hash(), ok))
         if not (hashes[0] == hashes[1] and hashes[0][1]):
-            if ("san/" in sig or "/crash" in sig) and hashes[0][1] and hashes[1][1]:
+            if unstable and hashes[0][1] and hashes[1][1]:
                 pass    # same violation both times; histories may differ after a memory error (garbage is read)
-            elif "san/" in sig or "/crash" in sig:
+            elif unstable:
                 lines.append("UNCONFIRMED: property=%s signature=%s seed=%d (sanitizer report not stable on replay)" % (prop, sig, seed0))
                 unconfirmed.append({"signature": sig, "seed": seed0})
                 continue
